@@ -961,7 +961,17 @@ func (u *Unit) mergeVals(c Term, a, b Val) Val {
 					aux = y.Aux
 				}
 			}
-			return &Scalar{T: Ite(c, x.T, y.T), Typ: x.Typ, Origin: o, Aux: aux, Allocs: unionAllocs(allocsOf(x), allocsOf(y))}
+			var keys *keySet
+			if x.Keys != nil && y.Keys != nil {
+				keys = &keySet{known: x.Keys.known && y.Keys.known, ks: map[string]bool{}}
+				for k := range x.Keys.ks {
+					keys.ks[k] = true
+				}
+				for k := range y.Keys.ks {
+					keys.ks[k] = true
+				}
+			}
+			return &Scalar{T: Ite(c, x.T, y.T), Typ: x.Typ, Origin: o, Aux: aux, Allocs: unionAllocs(allocsOf(x), allocsOf(y)), Keys: keys}
 		}
 		if y, ok := b.(*ClosureV); ok {
 			return &Scalar{T: Ite(c, x.T, u.closureID(y)), Typ: x.Typ}
@@ -1024,7 +1034,7 @@ func (u *Unit) mergeVals(c Term, a, b Val) Val {
 func (u *Unit) defineVal(v Val, hint string) Val {
 	switch x := v.(type) {
 	case *Scalar:
-		return &Scalar{T: u.define(x.T, hint), Typ: x.Typ, Origin: x.Origin, Aux: x.Aux, Allocs: x.Allocs}
+		return &Scalar{T: u.define(x.T, hint), Typ: x.Typ, Origin: x.Origin, Aux: x.Aux, Allocs: x.Allocs, Keys: x.Keys}
 	case *StructV:
 		r := &StructV{Typ: x.Typ}
 		for _, f := range x.F {
@@ -1399,7 +1409,7 @@ func (u *Unit) enterBlock(fr *Frame, b *ssa.BasicBlock, ins []edgeState) *State 
 			}
 		}
 		if sc, ok := val.(*Scalar); ok {
-			val = &Scalar{T: u.define(sc.T, "phi_"+phi.Comment), Typ: phi.Type(), Origin: sc.Origin, Aux: sc.Aux, Allocs: sc.Allocs}
+			val = &Scalar{T: u.define(sc.T, "phi_"+phi.Comment), Typ: phi.Type(), Origin: sc.Origin, Aux: sc.Aux, Allocs: sc.Allocs, Keys: sc.Keys}
 		}
 		fr.vals[phi] = val
 	}
